@@ -20,6 +20,11 @@ Clause == IF \E d \in Dests : \E k \in Keys("msg") : Count(d, k) # 1 THEN "messa
           ELSE IF Cardinality(Keys("msg")) # Traces[tid].sent THEN "message_lost"
           ELSE IF Cardinality(Keys("report")) # Failures THEN "reports_do_not_match_failures"
           ELSE IF \E d \in Dests : \E k \in Keys("report") : Count(d, k) # 1 THEN "report_not_offered_exactly_once"
+          \* typed messages whose serializer fails (C13 under interleavings): never delivered themselves (counted in `sent` they are
+          \* not), exactly one eliot:traceback and one eliot:serialization_failure each, offered once to every destination
+          ELSE IF Cardinality(Keys("sf")) # Traces[tid].serfails THEN "serialization_failure_messages_do_not_match_failures"
+          ELSE IF Cardinality(Keys("tb")) # Traces[tid].serfails THEN "traceback_messages_do_not_match_failures"
+          ELSE IF \E d \in Dests : \E k \in Keys("sf") \cup Keys("tb") : Count(d, k) # 1 THEN "serialization_report_not_offered_exactly_once"
           ELSE ""
 Init == tid \in DOMAIN Traces /\ done = FALSE
 Next == ~done /\ PrintT(<<"ACC", tid, Clause>>) /\ done' = TRUE /\ UNCHANGED tid
